@@ -6,7 +6,8 @@ props = [json.loads(l) for l in open(os.path.join(ROOT, "properties.jsonl"))]
 TRUST = ("TLC/SANY; BigInt Java override over java.math.BigInteger; the nanosvm harness (loader serialization, CPI rules, System program) and its "
          "byte-level projection; spl-token 8.0.0 / token-2022 8.0.1 / ATA compiled natively; native execution of the Rust source instead of SBF.")
 CLAIMS = {
- "C01": ("TLA+ spec (Whirlpool.tla) model-checked by TLC at toy scale (Solvent, NoFreeLunch over all interleavings) + TLC trace validation "
+ "C01": ("TLA+ spec (Whirlpool.tla) model-checked by TLC at toy scale (Solvent, NoFreeLunch over all interleavings; also with reset_position_range / reposition_liquidity_v2: MC_Rerange; "
+         "vacuity guards that fees really accrue and are paid out; random walks of depth 40 through a 7-tick / 3-position instance under all invariants: MC_Deep) + TLC trace validation "
          "(WpTrace.tla) of recorded executions of the real program: Solvent/NoFreeLunch after every instruction, drain sequences must succeed",
          "Exhaustive for the toy instance (bounded operations); sampled (seeded random histories) at full scale. The specification is the oracle in both.", "4 C01"),
  "C02": ("TLC checks StepOK(x, Step(x)) for every input tuple of a toy domain (MC_SwapStep, exhaustive) + TLC evaluates the StepOK contract (exact big-integer "
@@ -14,7 +15,7 @@ CLAIMS = {
          "on every swap step recorded in histories of the real program, and on every swap step the repository's own 654 tests execute (test suite built with the hook cfg, records validated by TLC)",
          "the full-scale input space is sampled (boundary grid from the case analysis of token_math.rs + seeded random), not enumerated", "4 C02"),
  "C09": ("TLC evaluates TickMathOK on the recorded tick->sqrt-price table (monotone, endpoints, ratio within 2^-32) and the inverse contract on every tick price, "
-         "one unit either side and random interior prices; thorough tier enumerates all 887273 ticks (exhaustive=true there)",
+         "one unit either side, random interior prices and prices special for the log2 bit-walk (2^k +- 2^j +- 1); thorough tier enumerates all 887273 ticks (exhaustive=true there)",
          "a contract over a pure function: the specification contributes the oracle, not exploration", "4 C09"),
  "C03": ("TLC model checking of SwapBounds as an action property on the toy instance + trace validation of every successful swap (v1, v2, "
          "transfer-fee mints) of recorded histories against SwapBounds evaluated on balance deltas; toy instance also with explicit price limits (inside / exactly on a tick) and real slippage thresholds (MC_Limits); two-hop bounds per leg", "as C01", "4 C03"),
@@ -22,7 +23,8 @@ CLAIMS = {
          "unsigned / foreign / other-authority / delegate 0,1,2 / emptied-token-account / coherent-foreign-(config,authority) variants; TLC checks ok => Guard (module WpIface: the authority "
          "recorded in the abstract state signed), base instructions succeed, failures are atomic; toy instance: OwnerSigned",
          "exhaustive over the finite matrix of the prepared world; the spec's Guard is the oracle", "4 C04"),
- "C10": ("TLC generates every layout of initialized ticks over boundary slots of the three-array window (PackagingModel); the harness replays each in three encodings under nine packagings; "
+ "C10": ("TLC generates every layout of initialized ticks over boundary slots of the three-array window (PackagingModel); the harness replays each in three encodings under nine packagings "
+         "(two-hop swaps: per-leg packagings with supplemental tick arrays compared with the canonical one); "
          "TLC validates each recorded swap against the path predicate of the spec (crossed = initialized ticks between start and end tick over all ticks of the pool, once, in order, "
          "net applied, no step jumps a tick) and the packaging-invariance / fail-rather-than-skip / foreign-array predicates; toy instance: crossing rules compose (LiqSum, TickSums)",
          "quick samples 240 layouts; thorough runs every one of the 4764 layouts once (partitioned over 12 shards)", "4 C10"),
@@ -47,11 +49,12 @@ CLAIMS = {
  "C19": ("TLC generates the mint-shape cases (MintAdmissionModel) and the harness replays them through the real initialise instructions; TLC validates ok => Admitted and evaluates the "
          "ParamsInBounds invariant of the specification on every projected state (mint admission runs, setter-bound probes, random histories incl. adaptive-fee pools)",
          "quick samples 2800 of the 85550 mint cases; thorough replays all of them; extension bodies are zero-filled with the right lengths (the admission rule reads types, freeze authority and default state only)", "4 C19"),
- "C05": ("TLC model checking of LiqSum/TickSums/TickInit on the toy instance + the same invariants evaluated by TLC on the projected state after every "
+ "C05": ("TLC model checking of LiqSum/TickSums/TickInit on the toy instance (also with the re-ranging instructions, old and new range sharing bounds: MC_Rerange) + the same invariants evaluated by TLC on the projected state after every "
          "recorded instruction (both tick-array encodings, Pinocchio handlers, adaptive-fee pools, account-substitution probes); thorough tier: Apalache proves the invariants INDUCTIVE over the liquidity rules for unbounded integer magnitudes (LiqInd.tla: Init => IndInv, IndInv /\\ Next => IndInv')", "as C01; the Apalache obligation is a design-level proof (7 ticks, 3 positions, any integer liquidity), bound to the code through the same invariants on recorded states", "4 C05"),
  "C06": ("TLC model checking of StepsOK/SplitExact action properties on the toy instance + trace validation: per-step fee formula, protocol cut, growth "
          "fold, trader/vault deltas, Traded event, protocol-fee collection of every recorded swap (pools with and without Token-2022 transfer fees); two-hop swaps: each leg booked on its own pool", "as C01; needs the swap-step hook", "4 C06"),
- "C07": ("TLC model checking of FeeUpper/FeeLower (ghost exact-share ledgers, accumulators started just below wrap-around) on the toy instance + trace validation: "
+ "C07": ("TLC model checking of FeeUpper/FeeLower (ghost exact-share ledgers, accumulators started one unit below wrap-around, ledgers running on across reset_position_range / reposition_liquidity_v2: MC_RerangeLedger; "
+         "a vacuity guard requires that fees are really credited across the wrap) on the toy instance + trace validation: "
          "the spec accumulates per recorded swap step the exact pro-rata share of every position whose range contains the segment tick (2^128-scaled interval) and checks "
          "credited fees <= share and >= share - bounded rounding after every instruction", "the lower bound is 'bounded rounding' (one unit per in-range step / credit): a change that loses less is not reported", "4 C07"),
  "C11": ("TLC model checking of Rewards.tla at toy scale (RewardUpper / RewardLower ghost share ledgers, NoInflation, zero-liquidity and stamp-monotonicity action properties, accumulator started below wrap-around) + "
